@@ -11,6 +11,7 @@ import (
 	"github.com/internetarchive/Zeno/internal/pkg/log"
 	"github.com/internetarchive/Zeno/internal/pkg/reactor"
 	"github.com/internetarchive/Zeno/internal/pkg/source/lq/sqlc_model"
+	"github.com/internetarchive/Zeno/internal/pkg/verifhook"
 	"github.com/internetarchive/Zeno/pkg/models"
 )
 
@@ -164,6 +165,8 @@ func consumerSender(ctx context.Context, wg *sync.WaitGroup, urlBuffer <-chan *s
 			}
 
 			logger.Debug("sending new item to reactor", "item", newItem.GetShortID())
+
+			verifhook.At("lq.consumer.beforeInsert", newItem.GetID())
 
 			// Send the new Item to the reactor
 			err = reactor.ReceiveInsert(newItem)
